@@ -30,6 +30,12 @@ On the expanded circuit:
   functions of `m` ALONE: discover the prepare/measure traces of `semSkel m`, take the segment each serialises to
   (`C03_serialize`), render its gates from `specTable m`; the visits are `Walk.specVisits` of the same skeleton (`C08_run_visits`).
 
+Without any hypothesis:
+* **`C03_run_exists`** — for every text, configuration and override list: if `runModel cfg ov txt = .ok s` then the circuit `x` the
+  emulator was handed HAS a meaning `m` (`parsed_expand_meaning`: the constructors' checks hold again after `fill_in_let`,
+  `C05_revalidate`; `expand_macros` keeps them, `expand_vok`; a flat typed circuit whose registers are valid chains and whose
+  literal indices are in range evaluates, `flat_os_meaning`) and `s = specSummary m`.
+
 From the source program (`parseProgram cfg txt = .ok c`, `runCircuit ov c = .ok s`):
 * **`C03_run_meaning_raw`**, **`C03_run_meaning_raw_source`**, **`C03_run_text`** — the capstone.  If the program evaluates, under
   the overrides, to the tree `x₀` (`rawMeaning`: `Sem.meaning` before `Sem.norm`), then `s = specSummary (spl (spellSem P M x₀))`:
@@ -43,12 +49,15 @@ From the source program (`parseProgram cfg txt = .ok c`, `runCircuit ov c = .ok 
 
 ## What is assumed, and why
 
-* That the specification GIVES the program a meaning (`hm`) is a hypothesis everywhere ("for every valid program").  For the
-  expanded circuit alone it cannot be derived from the success of the run: `FlatT` is a typing, and a flat typed circuit can hold
-  `map a q[0:10]` over `register q[4]` (the constructors refuse it, `FlatT` does not know), on which `X a[1]` runs but has no
-  meaning (`Sem.evalReg`: "slice leaves its source") — the example `c03NoMeaning` below evaluates exactly this.  For a PARSED
-  program the constructors' checks hold again after `fill_in_let` (`C05_revalidate_parsed`), so there the hypothesis should follow
-  from the success of the run; that is `C03_run_text_full` below, NOT proved.
+* In the theorems about a bare expanded circuit (`C03_run_table` … `C03_run_summary`) that the specification GIVES the circuit a
+  meaning (`hm`) is a hypothesis.  It cannot be derived from `FlatT` and the success of the run: `FlatT` is a typing, and a flat
+  typed circuit can hold `map a q[0:10]` over `register q[4]` (the constructors refuse it, `FlatT` does not know), on which
+  `X a[1]` runs but has no meaning (`Sem.evalReg`: "slice leaves its source") — the example `c03NoMeaning` below evaluates exactly
+  this.  For the expansion of a PARSED program the hypothesis is PROVED (`parsed_expand_meaning`), whence `C03_run_exists`.
+* In the theorems that speak of the meaning of the SOURCE (`C03_run_meaning…`, `C03_run_text`) that the source has a meaning is a
+  hypothesis ("for every valid program").  `C04_meaning` and `expandSubcircuits_meaning` go from the source to the expansion only;
+  that a program whose expansion has a meaning has one itself (`C03_run_spelled_full`) is NOT proved — and for the program
+  as written it is false when an override makes a subcircuit count a non-integer (`c03CountText`).
 * `C03_run_meaning` relates the run to a tree `m` with `m.norm = m₀`, not to `m₀` itself: `Sem.meaning` splices a block nested in a
   block of the same kind, which changes the ADDRESSES the walkers use, not the gates (`C03_specTraces_norm_full`, NOT proved;
   `C03_run_meaning_raw` avoids the question by naming the tree exactly).
@@ -421,15 +430,89 @@ theorem C03_run_meaning_source (cfg : Config) (ov : List (String × Num)) (txt :
   obtain ⟨m, h2, _, h3, _, h4, h5⟩ := C03_run_meaning cfg ov txt c c₁ s _ hp h1 hm1 hr
   exact ⟨m, h2, h3, h4, h5⟩
 
-/-- The full statement, NOT proved: `C03_run_text` without the hypothesis that the specification gives the program a meaning —
-i.e. a parsed program that RUNS has a meaning.  (The constructors' checks, which hold again after `fill_in_let`,
-`C05_revalidate_parsed`, should give it; it needs `ValOK` / `ValidChain` carried through `expand_macros` and the converse direction
-of `expStmt_sem`.  It is false for hand-built circuits: `c03NoMeaning` below.)  The non-vacuity examples evaluate the hypothesis
-on concrete programs. -/
-def C03_run_text_full : Prop :=
-  ∀ (cfg : Config) (ov : List (String × Num)) (txt : String) (s : RunSummary), runModel cfg ov txt = .ok s →
-    ∃ c x₀, Pipeline.parseProgram cfg txt = .ok c ∧ rawMeaning (FillIn.normOv ov) c = .ok x₀ ∧
-      specSummary (ExpandMacros.spl (Passes.spellSem (.gate "prepare_all" []) (.gate "measure_all" []) x₀)) = some s
+/-! ### 5. Existence: for a parsed program the expanded circuit HAS a meaning -/
+
+open Jaqal.FillIn Jaqal.ExpandSubcircuits in
+/-- **The circuit the emulator is handed has a meaning**, for every parsed program, configuration and override list: what the
+constructors checked holds again after `fill_in_let` (`C05_revalidate`), so every register of the filled circuit is a valid chain
+and every literal index lies inside its register (`vok_of_valOK`); `expand_macros` keeps that (`expand_vok`: a qubit reference it
+rebuilds passes `NamedQubit.__init__` again); and a flat typed circuit with such arguments evaluates (`flat_os_meaning`). -/
+theorem parsed_expand_meaning {cfg : Config} {txt : String} {ov : List (String × Num)} {c x : Circuit}
+    (hp : Pipeline.parseProgram cfg txt = .ok c) (hx : expandAll ov c = .ok x) : ∃ m, evalStmt [] [] [] x.body = .ok m := by
+  have hf := flatOf_all cfg ov txt c x hp hx
+  unfold expandAll at hx
+  obtain ⟨c1, hc1, hx⟩ := bind_ok hx
+  obtain ⟨c2, hc2, hx⟩ := bind_ok hx
+  have hL : Passes.Legal c1 := Passes.C10_legal_preserved_subs c c1 (Passes.parsed_legal cfg txt c hp) hc1
+  -- the filled circuit is `PreC`
+  have hpre : PreC c2 := by
+    have hp' := hp
+    unfold Pipeline.parseProgram Pipeline.parseSx at hp'
+    cases hpt : Parser.parseText txt with
+    | error pe => rw [hpt] at hp'; cases hp'
+    | ok sx =>
+      rw [hpt] at hp'
+      exact filled_preC (parseText_grammarSx hpt) (parseText_parserSx hpt) hp' hc1 hc2
+  -- what the constructors checked, on the spelled-out circuit
+  obtain ⟨hvb, hvm, hvr⟩ := parsed_valOK cfg txt c hp
+  obtain ⟨b, hb⟩ := parseProgram_body hp
+  obtain ⟨stmts, hs, _, _, _, _, hc1eq⟩ := ExpandSubcircuits.expand_ok hc1
+  have hpg : AllVals ValOK (prepStmt none c) := by intro a ha; cases ha
+  have hmg : AllVals ValOK (measStmt none c) := by intro a ha; cases ha
+  have hb1 : AllVals ValOK c1.body := by
+    have h1 := allVals_spell (prepStmt none c) (measStmt none c) hpg hmg c.body hvb
+    rw [hb] at h1 hs
+    simp only [spell, Bool.false_eq_true, if_false, ExpandSubcircuits.statementsOf, pure, Except.pure, Except.ok.injEq] at hs h1
+    subst hs
+    rw [hc1eq]
+    exact h1
+  have hm1 : ∀ m ∈ c1.macros, AllVals ValOK m.body := by
+    rw [hc1eq]
+    intro m hm
+    obtain ⟨m0, hm0, rfl⟩ := List.mem_map.1 hm
+    exact allVals_spell _ _ hpg hmg m0.body (hvm m0 hm0)
+  have hr1 : ∀ v ∈ c1.registers, ValOK v := by rw [hc1eq]; exact hvr
+  obtain ⟨ok2b, ok2m, _⟩ := C05_revalidate ov c1 c2 hL.wf2 hc2 hb1 hm1 hr1
+  -- no subcircuit block is left
+  obtain ⟨hsb1, hsm1⟩ := C09_none_left hc1
+  obtain ⟨_, _, hsk, hskm, _, _⟩ := C05_frame ov c1 c2 hL.wf2 hc2
+  have hsb2 : hasSub c2.body = false := by rw [hasSub_skel, hsk, ← hasSub_skel]; exact hsb1
+  have hsm2 : ∀ m' ∈ c2.macros, hasSub m'.body = false := by
+    intro m' hm'
+    obtain ⟨m1, hm1', _, _, hsk'⟩ := forall₂_right hskm m' hm'
+    rw [hasSub_skel, hsk', ← hasSub_skel]
+    exact hsm1 m1 hm1'
+  have hos := expand_vok hpre (vs_of _ _ _ c2.body hpre.body ok2b hsb2)
+    (fun m hm => vs_of _ _ _ m.body (hpre.macros m hm) (ok2m m hm) (hsm2 m hm)) hx
+  exact flat_os_meaning hf hos
+
+/-- **C03 over the run — no hypothesis.** Whatever the text, the configuration and the overrides: if
+`run_jaqal_circuit(parse_jaqal_string(text))` reports `s`, then the circuit `x` the emulator was handed (subcircuit blocks, lets
+and macros expanded) has a meaning `m` in the specification, and `s = specSummary m`: the subcircuits, the subcircuit of every
+readout and the gates of every subcircuit — each token a gate application of `m` with ITS resolved qubits and numbers — are
+computed from `m` alone. -/
+theorem C03_run_exists (cfg : Config) (ov : List (String × Num)) (txt : String) (s : RunSummary)
+    (h : runModel cfg ov txt = .ok s) :
+    ∃ c x m, Pipeline.parseProgram cfg txt = .ok c ∧ expandAll ov c = .ok x ∧ evalStmt [] [] [] x.body = .ok m ∧
+      specTraces m = some s.traces ∧ specSummary m = some s := by
+  unfold runModel at h
+  obtain ⟨c, hc, hr⟩ := bind_ok h
+  unfold runCircuit at hr
+  obtain ⟨x, hx, he⟩ := bind_ok hr
+  obtain ⟨m, hm⟩ := parsed_expand_meaning hc hx
+  have hf := flatOf_all cfg ov txt c x hc hx
+  exact ⟨c, x, m, hc, hx, hm, C03_run_traces x m s hf hm he, C03_run_summary x m s hf hm he⟩
+
+/-- The full statement, NOT proved: `C03_run_meaning_raw` without the hypothesis that the specification gives the SOURCE (subcircuit
+blocks spelled out) a meaning — i.e. a parsed program that runs has a meaning (its expansion has one: `parsed_expand_meaning`;
+missing is the converse direction of `expStmt_sem`: a filled circuit whose expansion evaluates evaluates).  For the program AS
+WRITTEN the statement is false: the count of a subcircuit block is dropped by `expand_subcircuits` before `fill_in_let` sees it, so
+an override that makes it a non-integer does not stop the run but leaves the program as written without a meaning —
+`c03CountText` below.  The non-vacuity examples evaluate the hypothesis on concrete programs. -/
+def C03_run_spelled_full : Prop :=
+  ∀ (cfg : Config) (ov : List (String × Num)) (txt : String) (c c₁ : Circuit) (s : RunSummary),
+    Pipeline.parseProgram cfg txt = .ok c → ExpandSubcircuits.expandSubcircuits none none c = .ok c₁ → runCircuit ov c = .ok s →
+    ∃ x₁, rawMeaning (FillIn.normOv ov) c₁ = .ok x₁ ∧ specSummary (ExpandMacros.spl x₁) = some s
 
 /-- … and the second thing NOT proved: that `specTraces` does not see `Sem.norm` (the walkers' ADDRESSES change when a block nested
 in a block of the same kind is spliced, the gates do not), so that `C03_run_meaning` could speak of `specTraces m₀` for the
@@ -515,6 +598,26 @@ example : FlatT c03NoMeaning = true ∧
      | .error (.jaqal _) => true
      | _ => false) = true := by decide +kernel
 
+/-- `let n 2; register q[2]; subcircuit n { X q[0] }` with `n` overridden by `2.5`: the run succeeds (the count is gone before
+`fill_in_let`), the spelled-out program has a meaning, the program as written has none ("not an integer") -/
+def c03CountText : String := "let n 2\nregister q[2]\nsubcircuit n { X q[0] }\n"
+
+example : (match Pipeline.parseProgram cfgX c03CountText with
+    | .ok c =>
+      let ov : List (String × Num) := [("n", .flt { neg := false, mant := 25, exp := -1 })]
+      (match runCircuit ov c with
+       | .ok s => s.traces == [["prepare_all", "X q0", "measure_all"]]
+       | _ => false) &&
+      (match rawMeaning (FillIn.normOv ov) c with
+       | .error (.jaqal _) => true
+       | _ => false) &&
+      (match ExpandSubcircuits.expandSubcircuits none none c with
+       | .ok c₁ => (match rawMeaning (FillIn.normOv ov) c₁ with
+         | .ok _ => true
+         | _ => false)
+       | _ => false)
+    | _ => false) = true := by decide +kernel
+
 end Examples
 
 end Jaqal.RunModel
@@ -531,3 +634,4 @@ end Jaqal.RunModel
 #print axioms Jaqal.RunModel.C03_run_meaning_raw
 #print axioms Jaqal.RunModel.C03_run_meaning_raw_source
 #print axioms Jaqal.RunModel.C03_run_text
+#print axioms Jaqal.RunModel.C03_run_exists
